@@ -93,6 +93,8 @@ OPTION_DEVS = {
     "co2_const350_3seasons": lambda s: {**s, "co2": {"constant_conc": True, "current_concentration": 350.0}, "end": "2004/04/20"},
     "co2_table_rising_3seasons": lambda s: {**s, "co2": {"table": [[1990, 360.0], [2001, 500.0], [2002, 545.0], [2003, 556.0], [2004, 700.0], [2050, 2100.0]]}, "end": "2004/04/20"},
     "off_season": lambda s: {**s, "off_season": True},
+    # every numeric setting passed as a numpy scalar (values read from arrays / DataFrames)
+    "numpy_inputs": lambda s: {**s, "numpy_inputs": True},
     "calc_cn": lambda s: _soilkw(s, calc_cn=1),
     "adj_rew0": lambda s: _soilkw(s, adj_rew=0),
     "adj_cn0": lambda s: _soilkw(s, adj_cn=0),
